@@ -135,7 +135,15 @@ func vspecAttr(constraints, values []string) bool {
 }
 
 // the catalogue has values that differ only in letter case or by a trailing dot: "exactly the listed values"
-func vhAttrVal(tag string) string { return vPick(tag, "*", "", "a", "b", "A", "a.") }
+func vhAttrVal(tag string) string {
+	if vhAttrSmall {
+		return vPick(tag, "*", "", "a", "b")
+	}
+	return vPick(tag, "*", "", "a", "b", "A", "a.")
+}
+
+// vhAttrSmall: the catalogue without the case and trailing-dot variants (for scenarios with two constraints)
+var vhAttrSmall bool
 
 func vhAttrList(tag string, n int) []string {
 	var l []string
@@ -172,16 +180,40 @@ func vhURIs(xs []string) []*url.URL {
 }
 
 // vh_C07_step: one and the same constraint must accept all attributes and the chain.
-// a = {#constraints of the step, parsed object kind (0 certificate, 1 other object, 2 parse error)}
+// a = {#constraints of the step, parsed object kind (0 certificate, 1 other object, 2 parse error), 1: small catalogue}
 func vh_C07_step(a []int) {
 	nc, kind := a[0], a[1]
+	vhAttrSmall = len(a) > 2 && a[2] >= 1
+	focus := len(a) > 2 && a[2] == 2 // a concrete certificate against symbolic constraints
+	defer func() { vhAttrSmall = false }()
 	vhVerifyCalls = 0
 	vhRootPool, vhIntermPool = x509.NewCertPool(), x509.NewCertPool()
-	cn := vPick("cert.cn", "a", "b", "", "A", "a.")
-	dns := vhAttrList("cert.dns", vChoice("cert.ndns", 2))
-	mails := vhAttrList("cert.mail", vChoice("cert.nmail", 2))
-	orgs := []string{vPick("cert.org", "a", "b", "A", "a.")}
-	uris := vhAttrList("cert.uri", vChoice("cert.nuri", 2))
+	var cn string
+	if focus {
+		cn = "a"
+	} else if vhAttrSmall {
+		cn = vPick("cert.cn", "a", "b", "")
+	} else {
+		cn = vPick("cert.cn", "a", "b", "", "A", "a.")
+	}
+	var dns, mails, uris []string
+	if focus {
+		dns, mails, uris = []string{"a"}, []string{"a"}, []string{"a"}
+	} else {
+		dns = vhAttrList("cert.dns", vChoice("cert.ndns", 2))
+		mails = vhAttrList("cert.mail", vChoice("cert.nmail", 2))
+	}
+	var orgs []string
+	if focus {
+		orgs = []string{"a"}
+	} else if vhAttrSmall {
+		orgs = []string{vPick("cert.org", "a", "b")}
+	} else {
+		orgs = []string{vPick("cert.org", "a", "b", "A", "a.")}
+	}
+	if !focus {
+		uris = vhAttrList("cert.uri", vChoice("cert.nuri", 2))
+	}
 	cert := &x509.Certificate{Subject: pkix.Name{CommonName: cn, Organization: orgs}, DNSNames: dns, EmailAddresses: mails, URIs: vhURIs(uris), NotBefore: vhNotBefore, NotAfter: vhNotAfter}
 	vhVerifyAtCertDates = false
 	vhParseErr = kind == 2
@@ -195,8 +227,15 @@ func vh_C07_step(a []int) {
 	type con struct{ cn, dns, mail, org, roots, uri []string }
 	var cs []con
 	for i := 0; i < nc; i++ {
-		c := con{cn: []string{vPick("c.cn", "*", "a", "")}, dns: vhAttrList("c.dns", vChoice("c.ndns", 2)), mail: []string{vPick("c.mail", "*", "a")},
-			org: []string{vPick("c.org", "*", "a")}, uri: []string{vPick("c.uri", "*", "a")}}
+		var c con
+		if focus {
+			// every attribute of the (concrete) certificate is either permitted by the wildcard or contradicted
+			c = con{cn: []string{vPick("c.cn", "*", "b")}, dns: []string{vPick("c.dns", "*", "b")}, mail: []string{vPick("c.mail", "*", "b")},
+				org: []string{vPick("c.org", "*", "b")}, uri: []string{vPick("c.uri", "*", "b")}}
+		} else {
+			c = con{cn: []string{vPick("c.cn", "*", "a", "")}, dns: vhAttrList("c.dns", vChoice("c.ndns", 2)), mail: []string{vPick("c.mail", "*", "a")},
+				org: []string{vPick("c.org", "*", "a")}, uri: []string{vPick("c.uri", "*", "a")}}
+		}
 		// the roots list may be absent altogether (a legal shape: `roots` left out of the layout)
 		if vChoice("c.nroots", 2) == 1 {
 			c.roots = []string{vPick("c.roots", "*", "r1", "r2")}
